@@ -33,7 +33,7 @@ pub static DEF: CheckDef = CheckDef {
     case,
     render,
     crashy: false,
-    floors: &[("same-uuid-recreation", 0.30), ("partial-service-set", 0.30), ("start-while-changing", 0.30), ("restart", 0.10), ("lifetime:ended", 0.05), ("find:some", 0.03), ("events>=4", 0.30), ("bounded-transport", 0.30)],
+    floors: &[("same-uuid-recreation", 0.30), ("partial-service-set", 0.40), ("start-while-changing", 0.40), ("restart", 0.20), ("lifetime:ended", 0.10), ("lifetime:alive", 0.08), ("find:some", 0.05), ("wait:returned", 0.04), ("events>=4", 0.12), ("destroyed-event", 0.10), ("current-only-view", 0.06), ("converged-nonempty-view", 0.20), ("bounded-transport", 0.50)],
     extra: None,
     extra_coverage: None,
 };
@@ -43,7 +43,7 @@ fn plan(t: Tier) -> Vec<ClassPlan> {
         Tier::Quick => 1,
         Tier::Thorough => 20,
     };
-    vec![ClassPlan { class: "churn", cases: 20_000 * k, min_len: 30, max_len: 360 }]
+    vec![ClassPlan { class: "churn", cases: 50_000 * k, min_len: 30, max_len: 360 }]
 }
 
 // ---------------------------------------------------------------------------------------------
